@@ -1,38 +1,39 @@
 #!/bin/bash
 # usage: tools/run_lanes.sh <seeded|harmless> <lanes> [names...]
 # Runs tools/run_seeded.py / run_harmless.py in <lanes> parallel lanes.  Each lane has a private clone of /repo and a private copy of
-# /verif under /tmp/lanes/<k> (the checks honour VERIF_REPO), so /repo itself is never touched; results are merged into
+# /verif under $L/<k> (the checks honour VERIF_REPO), so /repo itself is never touched; results are merged into
 # seeded*/RESULTS.json and the lanes are removed.
 set -e
+L=${LANES_DIR:-/tmp/lanes}
 kind=$1; n=$2; shift 2
 dir=/verif/seeded; tool=run_seeded.py
 [ "$kind" = harmless ] && { dir=/verif/seeded-harmless; tool=run_harmless.py; }
 names=("$@")
 [ ${#names[@]} -eq 0 ] && names=($(cd $dir && ls -d */ | tr -d /))
-rm -rf /tmp/lanes; mkdir -p /tmp/lanes
+rm -rf $L; mkdir -p $L
 for k in $(seq 1 $n); do
-  mkdir -p /tmp/lanes/$k
-  git clone -q /repo /tmp/lanes/$k/repo
-  rsync -a --exclude .git --exclude evidence/replays /verif/ /tmp/lanes/$k/verif/ || [ $? -eq 24 ]   # 24: files of a concurrent run vanished
+  mkdir -p $L/$k
+  git clone -q /repo $L/$k/repo
+  rsync -a --exclude .git --exclude evidence/replays --exclude work/cache /verif/ $L/$k/verif/ || [ $? -eq 24 ]   # 24: files of a concurrent run vanished
   mine=(); i=0
   for x in "${names[@]}"; do [ $((i % n + 1)) -eq $k ] && mine+=("$x"); i=$((i+1)); done
-  ( cd /tmp/lanes/$k/verif && LANE_REPO=/tmp/lanes/$k/repo LANE_VERIF=/tmp/lanes/$k/verif LANE_RESULTS=/tmp/lanes/$k/results.json \
-      python3 /verif/tools/$tool "${mine[@]}" > /tmp/lanes/$k/log 2>&1 ) &
+  ( cd $L/$k/verif && LANE_REPO=$L/$k/repo LANE_VERIF=$L/$k/verif LANE_RESULTS=$L/$k/results.json \
+      python3 /verif/tools/$tool "${mine[@]}" > $L/$k/log 2>&1 ) &
 done
 wait
-python3 - "$dir" "$n" "${#names[@]}" <<'PY'
+python3 - "$dir" "$n" "${#names[@]}" "$L" <<'PY'
 import json, os, sys
-d, n, asked = sys.argv[1], int(sys.argv[2]), int(sys.argv[3])
+d, n, asked, L = sys.argv[1], int(sys.argv[2]), int(sys.argv[3]), sys.argv[4]
 rp = os.path.join(d, "RESULTS.json")
 res = json.load(open(rp)) if os.path.exists(rp) else {}
 got = 0
 for k in range(1, n + 1):
-    p = f"/tmp/lanes/{k}/results.json"
+    p = f"{L}/{k}/results.json"
     if os.path.exists(p):
-        r = json.loads(open(p).read().replace(f"/tmp/lanes/{k}/verif", "/verif").replace(f"/tmp/lanes/{k}/repo", "/repo"))
+        r = json.loads(open(p).read().replace(f"{L}/{k}/verif", "/verif").replace(f"{L}/{k}/repo", "/repo"))
         got += len(r); res.update(r)
 json.dump(dict(sorted(res.items())), open(rp, "w"), indent=1)
 print("merged", got, "of", asked)
 PY
-cat /tmp/lanes/*/log | grep -v "^C..-m\|^R3-\|^[A-E]2\?-h" | head -20
-rm -rf /tmp/lanes
+cat $L/*/log | grep -v "^C..-m\|^R3-\|^[A-E]2\?-h" | head -20
+rm -rf $L
